@@ -9,8 +9,15 @@ def run(ctx):
     q = ctx.quick
     acc = {}
     if ctx.replay:
+        import os
         art = json.load(open(ctx.replay))
-        pc.drive(ctx, art["how"]["args"], "replay", acc, validate_trace=True)
+        args = list(art["how"]["args"])
+        if "behaviours" in art["how"]:
+            path = os.path.join(ctx.tmp("replay"), "behs.json")
+            json.dump(art["how"]["behaviours"], open(path, "w"))
+            args[args.index("-in") + 1] = path
+        ctx.seed = art["how"].get("seed", ctx.seed)
+        pc.drive(ctx, args, "replay", acc, validate_trace=True)
         _evidence(ctx, acc, 0)
         return
 
@@ -18,12 +25,13 @@ def run(ctx):
     #    world, chains of any length): CacheCoherent, CacheExact, PackAccepted, Deterministic
     if q:
         pc.design(ctx, ["MC_Production_member_quick.cfg", "MC_Production_endorse_quick.cfg", "MC_Production_pos_quick.cfg",
-                        "MC_Production_sibling_quick.cfg"], timeout=900)
+                        "MC_Production_sibling_quick.cfg", "MC_Production_possib_quick.cfg"], timeout=900)
     else:
-        pc.design(ctx, ["MC_Production_member_thorough.cfg", "MC_Production_endorse_thorough.cfg", "MC_Production_pos_thorough.cfg",
-                        "MC_Production_pos0_thorough.cfg", "MC_Production_sibling_thorough.cfg"], timeout=3000)
+        pc.design(ctx, ["MC_Production_mixed_thorough.cfg", "MC_Production_endorse_thorough.cfg", "MC_Production_pos_thorough.cfg",
+                        "MC_Production_pos0_thorough.cfg", "MC_Production_sibling_thorough.cfg", "MC_Production_possib_thorough.cfg"],
+                  timeout=3000)
     # 2. the model has teeth: every cache rule of the code is needed for CacheCoherent; nothing holds vacuously
-    pc.teeth(ctx, pc.TEETH[:3] + pc.TEETH[5:] if q else None, pc.VACUITY[1:2] + pc.VACUITY[3:4] + pc.VACUITY[6:7] if q else None)
+    pc.teeth(ctx, [pc.TEETH[i] for i in (0, 2, 5, 6, 7)] if q else None, [pc.VACUITY[i] for i in (1, 6)] if q else None)
     # 3. the trace specification has teeth
     pc.binding_demo(ctx)
     # 4a. hand-made scenarios, one per cache rule (the rightful slot owner packs, so that the caches are actually kept)
